@@ -1,4 +1,5 @@
 """C04 - debugging-information entries are decoded into exactly the encoded tree."""
+from vf import usage
 from vf.enc import dwarf as D
 from vf import registry
 from vf.choose import RndChooser, composite_from
@@ -261,6 +262,19 @@ def run_case(ctx, case):
                     ctx.fail('%s|tiling' % tag0, 'unit %d: sizes sum to %d, unit body has %d bytes (+%d pad)' % (
                         ui, tot, end - eu['die_offset'], pad), case)
                 _navigation(ctx, tag0, di, cu, dies, recs, w, case, which)
+                # the same walk on a fresh object, step by step, with the section streams moved and a nested walk started between two steps
+                if len(dies) <= 300:
+                    try:
+                        di3 = D.make_dwarfinfo(secs, case['le'], case.get('default_addr', 4))
+                        cu3 = next(c for c in (di3.iter_CUs() if which == 'units' else di3.iter_TUs()) if c.cu_offset == cu.cu_offset)
+                        sec3 = di3.debug_info_sec if which == 'units' or eu['header']['version'] >= 5 else di3.debug_types_sec
+                        stepped = usage.stepwise(cu3.iter_DIEs, usage.disturber(sec3.stream, cu3.iter_DIEs, (lambda: di3.debug_abbrev_sec.stream.seek(1), cu3.get_top_DIE)))
+                        if [(d.offset, d.tag, d.size) for d in stepped] != [(d.offset, d.tag, d.size) for d in dies]:
+                            ctx.fail('%s|iter_DIEs|interleaved-with-other-stream-use' % tag0, 'unit %d: a plain loop yields %d entries, a step-by-step walk with other stream users in between %d (or different ones)' % (
+                                ui, len(dies), len(stepped)), case)
+                        ctx.count('stepwise.iter_DIEs')
+                    except Exception as e:  # noqa
+                        ctx.fail_exc('%s|iter_DIEs|interleaved-with-other-stream-use' % tag0, e, case)
     # a second, fresh object: parent queries before any iteration, reference following first
     if w.exp['units'] and case.get('fresh_nav', True):
         try:
